@@ -4,6 +4,7 @@ The answer is computed by the very definitions the theorems in `Omaha/Props` are
 -/
 import Omaha.Drv.Version
 import Omaha.Drv.Time
+import Omaha.Drv.Cup
 
 open Omaha Omaha.Drv
 
@@ -11,6 +12,7 @@ def handleLine (line : String) : String :=
   match words line with
   | "version" :: rest => handleVersion rest
   | "time" :: rest => handleTime rest
+  | "cup" :: rest => handleCup rest
   | _ => "bad-op"
 
 partial def loop (h : IO.FS.Stream) (out : IO.FS.Stream) : IO Unit := do
